@@ -57,12 +57,12 @@ package scorch
 //@   props C13
 //@   mode int
 //@   trusted time arithmetic over snapshot time stamps is not under contract
-//@   ensures result != nil && fresh(result)
+//@   ensures result != nil && fresh(result) && 0 <= len(result) && len(result) <= 1073741824
 
 // the latest live snapshot is always protected
 //@ func Scorch.getProtectedSnapshots
 //@   props C13 C12
 //@   mode int
-//@   requires s != nil && len(liveSnapshots) > 0 && forall(k, 0, len(liveSnapshots), liveSnapshots[k] != nil) && s.numSnapshotsToKeep < 1073741824
+//@   requires s != nil && len(liveSnapshots) > 0 && forall(k, 0, len(liveSnapshots), liveSnapshots[k] != nil) && 0 <= s.numSnapshotsToKeep && s.numSnapshotsToKeep < 1073741824
 //@   ensures result != nil && in(result, liveSnapshots[0].epoch)
-//@   loop 0: invariant protectedEpochs != nil && fresh(protectedEpochs) && in(protectedEpochs, latestSnapshot.epoch) && latestSnapshot == liveSnapshots[0] && 1 <= i && numProtected <= s.numSnapshotsToKeep + i + 1073741824
+//@   loop 0: invariant protectedEpochs != nil && fresh(protectedEpochs) && in(protectedEpochs, latestSnapshot.epoch) && latestSnapshot == liveSnapshots[0] && 1 <= i && 0 <= numProtected && numProtected <= 1073741825 + i
